@@ -108,7 +108,7 @@ theorem accepted_create_signed_by_did_key (c : Cfg) (s s' : Store) (tx : Tx) (pd
       ∀ k', d.idID = c.didThumb k' → k' = tx.signer := by
   obtain ⟨hv, hcb⟩ := deliver_ok_inv c s s' tx pd h
   obtain ⟨d, hpd, _, hid, _, _⟩ := accepted_create_sound c s s' tx pd k hcb hk
-  have hs := verifySig_embedded c.maxDepth s tx k hk hv
+  have hs := verifySig_embedded s tx k hk hv
   subst hs
   exact ⟨d, hpd, hid, fun k' hk' => hinj _ _ (hk'.symm.trans hid)⟩
 
@@ -143,9 +143,9 @@ theorem accepted_update_signed_by_controller_key (c : Cfg) (s s' : Store) (tx : 
       e ∈ ctrl.f .capInv ∧ KeyInfo.ofBody e.body = .key tx.signer := by
   obtain ⟨hv, hcb⟩ := deliver_ok_inv c s s' tx pd h
   obtain ⟨d, cur, ctrl, e, k, k', hpd, _, hsucc, hctrl, he, hk', hk, ht, _⟩ := accepted_update_sound c s s' tx pd hcb hu
-  have hs := verifySig_kid c.maxDepth s tx hu hv
-  rw [hs] at hk
-  cases hk
+  have hs := verifySig_kid s tx hu hv
+  rw [resolvePublicKey_ok_store c.maxDepth s tx.kid tx.prevs k hk] at hs
+  cases hs
   have := hinj _ _ ht
   subst this
   exact ⟨d, cur, ctrl, e, hpd, hsucc, hctrl, he, hk'⟩
@@ -464,17 +464,45 @@ example : runAll [
     (updateTx 300 [100] "did:nuts:Dc" "c" 30, docOf "c" [] []),
     (updateTx 400 [200, 300] "did:nuts:Dc" "c" 40, docOf "d" ["d"] ["d"] ["did:nuts:Dc"]),
     (updateTx 410 [200, 100] "did:nuts:Dc" "c" 40, docOf "d" ["d"] ["d"] ["did:nuts:Dc"])]
-  = ["ok", "ok", "ok", "err:sig:key:no-active-controller", "ok", "err:sig:key:not-found", "ok"] := by decide
+  = ["ok", "ok", "ok", "err:update:signingkey:no-active-controller", "ok", "err:sig:key:not-found", "ok"] := by decide
 
--- a controller cycle: the callback answers too-deep (never loops); with the verifier in front the key of a
--- document whose controllers cannot be resolved under the same source transaction is not even resolvable
+/-- The clause "keys of deactivated controllers" read against the LATEST state: if the succeeded version does not
+    control itself and every controller DID it lists is deactivated now (`Resolve(did, nil)` answers deactivated),
+    the update is refused. -/
+def deactivated_controller_Stmt : Prop :=
+  ∀ (c : Cfg) (s : Store) (tx : Tx) (d : NDoc),
+    (match currentVersion s d.id tx.prevs with
+     | .ok cur => (selfLeaves cur).isEmpty && (foreignRefs cur).all (fun r =>
+         match resolve s r none with | .err e => e == eDeactivated | _ => false)
+     | _ => false) = true →
+    (handleUpdate c s tx d).isOk = false
+
+private def dcStore : Store :=
+  (runHist cfg0 {} [
+    (createTx 100 "c", some (docOf "c" ["c"] ["c"])),
+    (createTx 110 "d", some (docOf "d" ["d"] [] ["did:nuts:Dc"])),
+    (updateTx 300 [100] "did:nuts:Dc" "c" 30, some (docOf "c" [] []))])
+
+/-- **False of the code** (open finding). What IS proved is `deactivated_controller_rejected` /
+    `controller_versions_are_active`: the controller version selected by the transaction's prevs (or signing time) is
+    active. The witness: controller `Dc` is deactivated by transaction 300; an update of `Dd` whose prevs name `Dc`'s
+    creation (100) and which is signed by `Dc`'s old key is accepted. Replayed on the real ambassador from
+    `harness/corpus/C09/deactivated-controller-old-prev.jsonl`. -/
+theorem deactivated_controller_latest_witness : ¬ deactivated_controller_Stmt := by
+  intro h
+  have := h cfg0 dcStore (updateTx 410 [110, 100] "did:nuts:Dc" "c" 40) (docOf "d" ["d"] ["d"] ["did:nuts:Dc"]) (by decide)
+  revert this
+  decide
+
+-- a controller cycle: the callback answers too-deep (never loops), also with the verifier in front (the verifier's key
+-- resolver reads the store directly and does not look at controllers)
 private def cyc : Store :=
   (step cfg0 (step cfg0 {} (createTx 100 "a") (some (docOf "a" ["a"] ["a"] ["did:nuts:Db"]))).1
     (createTx 110 "b") (some (docOf "b" ["b"] ["b"] ["did:nuts:Da"]))).1
 example : (match callback cfg0 cyc (updateTx 200 [100, 110] "did:nuts:Db" "b") (some (docOf "a" ["a"] ["a"])) with
     | .err e => e | _ => "") = "update:controllers:too-deep" := by decide
 example : (step cfg0 cyc (updateTx 200 [100, 110] "did:nuts:Db" "b") (some (docOf "a" ["a"] ["a"]))).2
-    = "err:sig:key:no-active-controller" := by decide
+    = "err:update:controllers:too-deep" := by decide
 
 -- the depth limit on an abstract resolver: a chain d1 <- d2 <- ... ; `dN` controls itself
 private def chainDoc (i : Nat) (root : Bool) : Doc :=
